@@ -35,7 +35,7 @@ TOL = 1e-9
 def lanes(tier):
     if tier == "quick":
         return [("core", "plain", 160), ("coresan", "san", 32), ("pipe", "plain", 64), ("rule", "plain", 16)]
-    return [("core", "plain", 3000), ("coresan", "san", 400), ("pipe", "plain", 1200), ("rule", "plain", 64)]
+    return [("core", "plain", 3000), ("coresan", "san", 400), ("pipe", "plain", 1200), ("rule", "plain", 64), ("vg-coresan", "vg", 12)]
 
 
 def run_rule(idx, rng, counters):
